@@ -132,11 +132,14 @@ def addFiles {Γ : Type} (fl : Files Γ) : DocSet.State Node → List String →
     | .err => .err
     | .panic => .panic
 
+/-- one `o.Add(name, doc)` of `filtered` -/
+def overlayAdd (s : Ytk.Overlay) (p : String × Node) : Ytk.Overlay :=
+  match p.2 with
+  | .cont kvs => Overlay.addLayer s p.1 kvs
+  | _ => s
+
 /-- the overlay document built by `filtered`: `o.Add(name, doc)` per entry, in order -/
-def overlayOf (ov : DocSet.Overlay Node) : Ytk.Overlay :=
-  ov.foldl (fun s p => match p.2 with
-    | .cont kvs => Overlay.addLayer s p.1 kvs
-    | _ => s) []
+def overlayOf (ov : DocSet.Overlay Node) : Ytk.Overlay := ov.foldl overlayAdd []
 
 /-- mergeFilesFunc(files): NewDocumentSet, AddDocumentFromFile per file (name = the file name),
     AsOne().Merged(ListsMergeAppend()) -/
